@@ -412,7 +412,10 @@ func (ex *Exec) evalUnary(e *ast.UnaryExpr) Val {
 	case token.AND:
 		return ex.evalAddrOf(e)
 	case token.ARROW:
-		ex.errorf("channel receive unsupported")
+		// receive: an arbitrary value of the element type (channels carry no facts)
+		ex.eval(e.X)
+		ex.assumptions["channels: a received value is arbitrary (what was sent is not tracked)"] = true
+		return ex.havocTyped(typ, "recv")
 	}
 	ex.errorf("unsupported unary %s", e.Op)
 	return Val{ex.fresh("unk", sortOf(typ)), typ}
@@ -1084,4 +1087,14 @@ func (ex *Exec) srExplode(o *types.Var, h *T) {
 	if s.NumFields() > 0 && h.Op != "mk."+structName(o.Type()) {
 		ex.rawFact(Eq(ex.mkStruct(o.Type(), fs), h))
 	}
+}
+
+// havocTyped returns an arbitrary well-typed value (references are allocated objects).
+func (ex *Exec) havocTyped(t types.Type, hint string) Val {
+	v := ex.fresh(hint, sortOf(t))
+	ex.assume(ex.typeFact(t, v))
+	if f := ex.refBounds(t, v, ex.get(ex.st, "$alloc"), 0); f != True {
+		ex.assume(f)
+	}
+	return Val{v, t}
 }
